@@ -18,11 +18,12 @@ def main():
     p = os.path.join(VERIF, "tools", "not_applicable.json")
     if os.path.exists(p):
         na_reasons = json.load(open(p))
+    claimed = set(json.load(open(os.path.join(VERIF, "tools", "claimed.json"))))   # integrated (committed) checks only
     checks = []
     na = []
     for pr in props:
         pid = pr["id"]
-        if pid in meta:
+        if pid in meta and pid in claimed:
             m = meta[pid]
             checks.append({
                 "property_id": pid,
@@ -42,6 +43,9 @@ def main():
                                                      "has not been built (see DESIGN.md §5 for the plan)")})
     engines = []
     for e, ps in registry.ENGINES.items():
+        ps = [p for p in ps if p in claimed]
+        if not ps:
+            continue
         engines.append({"name": e, "path": "specs/%s + harness/bindings/%s.py" % (getattr(
             __import__("harness.bindings." + e, fromlist=["SPEC_DIR"]), "SPEC_DIR", e), e),
             "serves_properties": ps,
